@@ -70,7 +70,7 @@ def gen_graphs(ck):
                 items.append((k, ds))
             if any(DANGLING in ds for _, ds in items):
                 out.append(("exh3-dangling-sample", items))
-    n_rand = 1000 if ck.tier == "quick" else 60000
+    n_rand = 1000 if ck.tier == "quick" else 30000
     for i in range(n_rand):
         n = rng.choice([4, 4, 5, 5, 5]) if i % 10 else rng.randrange(6, 41)
         keys = list(range(1, n + 1))
